@@ -94,6 +94,7 @@ struct Inner {
     prio: Vec<u32>,
     last: Option<usize>,
     schedule: Vec<u8>,
+    enabled_masks: Vec<u16>,
     stats: SchedStats,
     done: bool,
     fatal: Option<Fatal>,
@@ -115,6 +116,9 @@ pub struct Sched {
 pub struct SchedReport {
     pub stats: SchedStats,
     pub schedule: Vec<u8>,
+    /// bit i set: worker i was enabled at that decision (used by the pre-emption sweep)
+    #[serde(default)]
+    pub enabled_masks: Vec<u16>,
     pub fatal: Option<Fatal>,
     pub thread_states: Vec<String>,
 }
@@ -152,7 +156,7 @@ impl Sched {
             m: Mutex::new(Inner {
                 th: vec![St::NotStarted; nb_threads], phase: vec![Phase::Idle; nb_threads], current: None, owner: None,
                 woken: VecDeque::new(), condq: VecDeque::new(), expected: nb_threads, awaiting: false, pending_owner: None,
-                rng, strategy, prio, last: None, schedule: vec![], stats: SchedStats::default(), done: nb_threads == 0, fatal: None, max_steps,
+                rng, strategy, prio, last: None, schedule: vec![], enabled_masks: vec![], stats: SchedStats::default(), done: nb_threads == 0, fatal: None, max_steps,
                 aborted: false, states_seen: Default::default(),
             }),
             cv: Condvar::new(), fringe_len: AtomicUsize::new(0), fatal_handler,
@@ -171,7 +175,7 @@ impl Sched {
     fn report(g: &Inner) -> SchedReport {
         let mut stats = g.stats.clone();
         stats.abstract_states = { let mut v: Vec<u64> = g.states_seen.iter().copied().collect(); v.sort_unstable(); v };
-        SchedReport { stats, schedule: g.schedule.clone(), fatal: g.fatal, thread_states: g.th.iter().zip(g.phase.iter()).map(|(s, p)| format!("{s:?}/{p:?}")).collect() }
+        SchedReport { stats, schedule: g.schedule.clone(), enabled_masks: g.enabled_masks.clone(), fatal: g.fatal, thread_states: g.th.iter().zip(g.phase.iter()).map(|(s, p)| format!("{s:?}/{p:?}")).collect() }
     }
 
     fn note(g: &mut Inner, tid: usize, code: u64) {
@@ -268,6 +272,7 @@ impl Sched {
         g.last = Some(c);
         g.stats.steps += 1;
         g.schedule.push(c as u8);
+        g.enabled_masks.push(en.iter().fold(0u16, |m, &i| m | 1 << i));
         if let St::Parked(Pt::Lock(site)) = g.th[c] {
             g.owner = Some(c);
             g.stats.lock_sites[site_idx(site)] += 1;
